@@ -391,7 +391,7 @@ Proof.
 Qed.
 
 (* (- num) or num, in front of a delimited rest *)
-Lemma render_num : forall neg num rest l, all_digits num = true -> delim rest -> lexes cfg rest l ->
+Lemma render_num : forall (neg : bool) num rest l, all_digits num = true -> delim rest -> lexes cfg rest l ->
   lexes cfg ((if neg then "(- " +++ num +++ ")" else num) +++ rest) (sexp_toks (num_sexp neg num) ++ l).
 Proof.
   intros neg num rest l H Hd Hr. unfold num_sexp. destruct neg.
@@ -412,7 +412,7 @@ Proof.
     destruct args as [|a r].
     + cbn [print_term term_psexp]. apply render_sym; assumption.
     + cbn [print_term term_psexp]. rewrite sexp_toks_cons_map. rewrite !append_assoc. cbn [append].
-      apply step_lp; [exact Hok|]. rewrite <- app_assoc.
+      apply step_lp; [exact Hok|]. Show.
       apply render_sym; [exact Hsym| |].
       * cbn [map]. rewrite concat_empty_cons. rewrite !append_assoc. cbn [append]. apply delim_space.
       * apply (render_args term (print_term repaired env) (fun x => sexp_toks (term_psexp env x))); [|exact Hr].
